@@ -104,6 +104,8 @@ def atoms():
             '(p.a, p.b) == (x, 1)', '(p.a, p.s) != (x, y)', '(p.a, p.b) in ((1, 2), (x, 3))', '(p.a, p.b) == z', '(p.a, p.b) != z',
             'p.a in z', 'p.b not in z', 'p.b in z',
             'p.a not in ()', 'p.a in ()', 'p.b not in []', 'p.a in e', 'p.b not in e', "p.s not in ()",
+            '(p.a, p.b) in ((q.a, q.b) for q in P if q.f)', '(p.a, p.b) not in ((q.a, q.b) for q in P if q.f)', '(p.a, p.s) not in ((q.b, q.u) for q in P)',
+            '(p.g.n, p.a) in ((g.n, g.id) for g in G)', '(p.b, p.u) not in ((q.a, q.s) for q in P if q.b is None)',
             # per-row string index
             'p.s[p.a] == y', "p.s[p.a - 1] == 'a'", 'p.s[p.b] != y', 'p.s[-p.a] == y', 'p.s[len(p.s) - 1] == y', 'p.u[p.a] == p.s[0]',
             ]
